@@ -21,10 +21,12 @@ def comb_event(pp, tid, A, kind, size, via):
         text = anngen.render(A)
         return [pp.parse(s) for s in getattr(pp, kind)(text, **kw)]
     o, res = call(f)
+    o_again, res_again = call(f)       # the same expansion again on the same object: must give the same list
     ev = {"tid": tid, "k": "c19", "op": "comb", "A": A, "kind": kind, "size": size, "via": via, "out": o,
-          "res": [], "allParse": True}
+          "res": [], "again": [], "allParse": True}
     if o == "ret":
         ev["res"] = [project.ann(r) for r in res]
+        ev["again"] = [project.ann(r) for r in res_again] if o_again == "ret" else [anngen.empty("")]
         ok = True
         for r in res[:200]:
             o2, b = call(lambda: pp.parse(r.serialize()))
